@@ -8,6 +8,7 @@ SHARDS = {"quick": 8, "thorough": 16}
 TIMEOUT = {"quick": 900, "thorough": 7200}
 REQUIRED = {"ckd_pub": 500, "pair_walk": 100, "refuse_hardened": 100, "ckd_pub_prf": 50,
             "probe.PubKeyNode.ckd": 500, "ckd_state": 500}
+ANCHORS = ['bip32:PubKeyNode.ckd', 'bip32:PubKeyNode.derive_path', 'bip32:PubKeyNode.generate_children', 'bip32:PubKeyNode.extended_public_key']
 RULE = ("seeded generator over public parents (from scalar classes incl. x-coordinates with leading zero bytes, both "
         "parities), chain-code classes, depth 0..254, construction form (ctor / parsed from xpub string, bytes, stream) and "
         "index classes in [0,2^31) for derivation, [2^31,2^32) for refusal; paired private/public walks of length 0..10; "
